@@ -142,7 +142,8 @@ StepEvent ==
   /\ l <= Len(Trace)
   /\ LET e == Trace[l] IN
      \* (repeated calls are compared within a history: the memo starts afresh, or a long trace would pay for all its past)
-     IF e.op = "Reset" THEN heap' = <<>> /\ flagged' = {} /\ memo' = <<>> /\ UNCHANGED <<bad, sup, stats>>
+     \* (except across the Resets the harness marks: its replay scripts are separate histories)
+     IF e.op = "Reset" THEN heap' = <<>> /\ flagged' = {} /\ memo' = (IF "keep" \in DOMAIN e /\ e.keep THEN memo ELSE <<>>) /\ UNCHANGED <<bad, sup, stats>>
      ELSE IF e.op = "Drop" THEN      \* the harness forgets the object read back from the command line
        heap' = SubSeq(heap, 1, Len(heap) - 1) /\ flagged' = flagged \ {Len(heap)} /\ UNCHANGED <<bad, memo, sup, stats>>
      ELSE
